@@ -25,6 +25,11 @@ func c10Fix() *Fix {
 	f.Items["I1s512"] = it
 	b := &Item{Name: "l3s384", MT: mtLayer, Data: []byte("layer-3"), Dig: h.Dig("sha384", []byte("layer-3"))}
 	f.Items["l3s384"] = b
+	// a two-level index over an image of its own (no delete operation of the universe addresses these by digest: the
+	// answer for a child deleted while its index stays is left open, DESIGN 8.3 item 14)
+	f.Image("I3", mtImg, "c", []string{"l1"}, "", "", map[string]string{"n": "3"})
+	f.Index("X3", mtIdx, []string{"I3"}, "", "", nil)
+	f.Index("Y3", mtIdx, []string{"X3"}, "", "", nil)
 	return f
 }
 
@@ -154,7 +159,7 @@ func c10ValidateLayout(w *h.World, f *Fix, repo string, items, tags []string) []
 
 func c10Specs(tier string) []*h.SeqSpec {
 	f := c10Fix()
-	items := []string{"c", "l1", "l2", "e", "l3s384", "I1", "I1s512", "I2", "X2", "A1"}
+	items := []string{"c", "l1", "l2", "e", "l3s384", "I1", "I1s512", "I2", "X2", "I3", "X3", "Y3", "A1"}
 	tags := []string{"t", "u"}
 	subjects := []string{f.Items["I1"].Dig}
 	type cfg struct {
@@ -208,6 +213,18 @@ func c10Specs(tier string) []*h.SeqSpec {
 		man("r", "I2", "")
 		man("r", "X2", "t")
 		man("r", "A1", "")
+		// a two-level index pushed completely (children and grandchildren by digest): what the inner index lists is only
+		// known through two levels of index.json bookkeeping, which a reload has to rebuild
+		ops = append(ops, h.Op{Name: "push nested index Y3 completely to r (I3, X3 by digest, Y3 as u)", Do: func(w *h.World) []h.Violation {
+			for _, b := range []string{"c", "l1"} {
+				w.PushBlob("r", f.Items[b].Data, f.Items[b].Dig)
+			}
+			for _, n := range []string{"I3", "X3"} {
+				w.PutManifest("r", f.Items[n].Dig, f.Items[n].MT, f.Items[n].Data)
+			}
+			w.PutManifest("r", "u", f.Items["Y3"].MT, f.Items["Y3"].Data)
+			return nil
+		}})
 		blob("r/n", "c")
 		blob("r/n", "l1")
 		man("r/n", "I1", "t")
